@@ -635,6 +635,8 @@ MCS = {
                     cfg_thorough="mc/MC_Elastic_thorough.cfg", xmx="8g", timeout=2400),
     "rounding": dict(module="mc/MC_Rounding.tla", cfg_quick="mc/MC_Rounding_quick.cfg",
                      cfg_thorough="mc/MC_Rounding_thorough.cfg", xmx="8g", timeout=2400),
+    "rconv": dict(module="mc/MC_RConv.tla", cfg_quick="mc/MC_RConv_quick.cfg",
+                  cfg_thorough="mc/MC_RConv_thorough.cfg", xmx="8g", timeout=2400),
     "overflow": dict(module="mc/MC_Overflow.tla", cfg_quick="mc/MC_Overflow_quick.cfg",
                      cfg_thorough="mc/MC_Overflow_thorough.cfg", xmx="8g", timeout=2400),
 }
@@ -706,13 +708,16 @@ CHECKS = {
                "deviate where the bias leaves the promoted type.",
                "mixed-signedness operand pairs are judged only where the usual conversions leave both values unchanged "
                "(reading decision, DESIGN 6.0)"),
-    "C09": chk(["rounding"], [],
+    "C09": chk(["rounding"], ["rconv"],
                "events = convert<RoundingTag, Dest>(src) for float/double/long double sources (ties k+0.5, quarter points and "
                "both floating neighbours of each, scaled to the destination unit) into 8..64-bit integers and scaled_integers, "
                "and finer -> coarser scaled_integer (radix 2 and 10; every residue for small values, boundary sets, random); "
                "non-trivial = digits are lost",
                "TLA+ spec (SemRounding: exact dyadic/decimal source value, RoundQ per mode) evaluated by TLC on every recorded "
-               "conversion (trace validation); floats logged exactly as sign/mantissa/exponent",
+               "conversion (trace validation); floats logged exactly as sign/mantissa/exponent; design level: MC_RConv runs the "
+               "as-coded conversion model (alg/AsCodedRConv) through the same judge on a scaled-down machine (4/5-bit significands, "
+               "6-bit integers, every source value and mode) and proves that it deviates from correct rounding only in the "
+               "listed classes",
                "the logged destination representation must be the multiple of the destination resolution selected by the mode "
                "from the exact source value, for every source whose rounded result is representable.",
                "conversion forms that do not compile in the library (scaled -> plain integer under nearest, non-narrowing "
